@@ -104,9 +104,15 @@ pub fn key_hex() -> impl Strategy<Value = String> {
 }
 
 pub fn guid() -> impl Strategy<Value = String> {
-    any::<[u8; 16]>().prop_map(|b| {
+    (any::<[u8; 16]>(), prop_oneof![6 => Just(0u8), 1 => Just(1u8), 1 => Just(2u8)]).prop_map(|(b, case)| {
         let h = hmacsha::hex_lower(&b);
-        format!("{}-{}-{}-{}-{}", &h[0..8], &h[8..12], &h[12..16], &h[16..20], &h[20..32])
+        let g = format!("{}-{}-{}-{}-{}", &h[0..8], &h[8..12], &h[12..16], &h[16..20], &h[20..32]);
+        // the key id is opaque text: the host may spell it in upper or mixed case
+        match case {
+            1 => g.to_uppercase(),
+            2 => g.chars().enumerate().map(|(n, c)| if n % 3 == 0 { c.to_ascii_uppercase() } else { c }).collect(),
+            _ => g,
+        }
     })
 }
 
